@@ -24,3 +24,5 @@ def run(ctx):
     ctx.floor("T3", 8)
     ctx.floor("T4", 8)
     ctx.floor("A6", 3)
+    T.t14_normalise_before_use(ctx, ("class_db",))
+    ctx.floor("T14", 1)
